@@ -45,7 +45,7 @@ def is_finite(f):
 class C08(Prop):
     id = "C08"
     lean_modules = ["Fan2go.Props.C08"]
-    fact_modules = ["Fan2go.Props.Trans", "Fan2go.Props.Trans3Leaf"]
+    fact_modules = ["Fan2go.Props.Trans", "Fan2go.Props.Trans3Leaf", "Fan2go.Props.Trans3Exec"]
     rule = ("sensor: real HwmonSensor / FileSensor / CmdSensor objects + the real updateSensor, window sizes {1,2,3,10,50}, "
             "reading sequences with read faults (missing / unreadable / empty / non-numeric file; for cmd: non-zero exit, "
             "garbage, 'nan', 'inf', out-of-range output) at random places; converge: constant readings; sma: "
@@ -67,6 +67,11 @@ class C08(Prop):
                     if not cops[i].startswith("sn.init") or "avg" not in g or not g["avg"].startswith("x"):
                         continue
                     v0 = bits2f(int(g["avg"][1:], 16))
+                    o = kv(cops[i])
+                    if (o.get("exit", "0") != "0" or o.get("pv", "err") == "err") and v0 != 0.0:
+                        out.append(viol(f"a failed first read (exit status {o.get('exit')}, output verdict {o.get('pv')}) seeded the smoothed value with {v0}",
+                                        [cops[0], cops[i]], [cgo[0], cgo[i]]))
+                        break
                     if not is_finite(v0):
                         out.append(viol(f"the smoothed value starts at {v0}: a non-finite first reading poisons it for ever", [cops[0], cops[i]], [cgo[0], cgo[i]]))
                         break
